@@ -12,7 +12,7 @@ L3: the property statement evaluated directly on the real code (no model): `to_f
     old format, `pickle` with every protocol, `array_to_file` -> `array_from_file`, for 1-5 dimensions with singleton axes,
     values 1e-300..1e300 / nan / +-inf / -0.0 / denormals, arbitrary masks, folded or not, labels with spaces, 0-5 comments,
     precision >= 16.
-C : the explicit contract `FmtContract` the value theorems assume (parse(format p x) = round_p x, round_p idempotent,
+C : the explicit contract `FmtContract` the value theorems assume (for the concrete rational model of the chain its `exact17` is proved; K `round_model`) (parse(format p x) = round_p x, round_p idempotent,
     round_p = id for p >= 17, formatted entries are tokens) validated on the real `%`-formatting and
     numpy.fromstring with round_p computed independently in exact rational arithmetic (`contract_check`).
 P : older, coarser form of C kept as a cross-check — `'%.{p}g' % x` is a non-empty whitespace-free, quote-free token, numpy's
@@ -1424,10 +1424,14 @@ def run(chk, ctx):
                 'has a singleton axis, folded, label kind, number of comments, precision, set of value classes present, mask trivial or not, '
                 'layout route and data/mask layouts, axis lengths all equal or not).')
     chk.unproved = [
-        "'%.{p}g' % x / strtod: the contract FmtContract (parse(format p x) = round_p x, round_p idempotent, round_p = id for "
-        "p >= 17, formatted entries are whitespace-free tokens) is an explicit HYPOTHESIS of C14_values_to_precision / C14_array_values_to_precision; "
-        "it is validated numerically (contract_check: round_p computed in exact rational arithmetic; p in 16..30; nan, +-inf, +-0, denormals, "
-        "1e-300..1e300, random bit patterns up to 1e308), not proved",
+        "'%.{p}g' % x / strtod: C14_values_to_precision / C14_array_values_to_precision assume the contract FmtContract (parse(format p x) = round_p x, "
+        "round_p idempotent, round_p = id for p >= 17, formatted entries are whitespace-free tokens).  For the CONCRETE exact rational model of the chain "
+        "(roundSig, roundBin, rndModel; run by the driver, K op round_model against the real '%.*g' / float() and against Decimal) `round_p = id for "
+        "p >= 17` on every finite double, idempotence of each rounding, identity on values with <= p digits are PROVED (C14_round_exact17, "
+        "C14_round_idempotent, C14_round_fixed) and C14_values_from_printf needs only PrintfCorrect: formatted entries are tokens and printf/strtod "
+        "round correctly.  NOT proved: PrintfCorrect itself (the C library), and idempotence of the composed rounding at p = 16 (needed only for the "
+        "'a second round trip changes nothing' clause); both validated numerically (contract_check, round_model: p in 16..30; +-0, denormals, "
+        "1e-300..1e300, random bit patterns up to 1e308); nan / +-inf are tokens outside the rational model (L3 / K only)",
         "gzip compression and the UTF-8 codec are exercised (L3, K on the decompressed text) but not modelled; what is proved is that writer and reader "
         "choose the same transport and text mode for every file name (C14_open_dispatch)",
         "numpy's own MaskedArray.__new__ / asanyarray / make_mask_none / ndarray.view / flat and slice-list indexing are hand-written model primitives "
